@@ -212,6 +212,35 @@ impl Prop for C16 {
             glyphs[0] = Glyph::Simple(ig::Simple { contours, instructions: Vec::new(), overlap: false });
             cx.class("glyph:flag-run>=256");
         }
+        // a glyph with runs of coincident points: in the compact encoding (repeat runs, "same" deltas)
+        // such a glyph has more points than bytes of flag + coordinate data - legal, and every point
+        // must still be delivered
+        let coincident = !long_run && rng.chance(1, 25);
+        if coincident {
+            let nc = 1 + rng.below(3);
+            let mut contours = Vec::new();
+            let (mut x, mut y) = (0i32, 0i32);
+            for _ in 0..nc {
+                let mut c = Vec::new();
+                let runs = 1 + rng.below(3);
+                for _ in 0..runs {
+                    x = (x + rng.range(-200, 200) as i32).clamp(-2000, 2000);
+                    y = (y + rng.range(-200, 200) as i32).clamp(-2000, 2000);
+                    let on = rng.chance(3, 4);
+                    let n = *rng.pick(&[1usize, 3, 8, 12, 40, 257, 300]);
+                    for _ in 0..n {
+                        c.push(ig::Pt { x: x as i16, y: y as i16, on });
+                    }
+                }
+                contours.push(c);
+            }
+            let g = ig::Simple { contours, instructions: Vec::new(), overlap: false };
+            let bytes = ig::write_simple(&g, g.bbox(), rng, &EncChoice::compact());
+            if g.num_points() > bytes.len().saturating_sub(10 + 2 * g.contours.len() + 2) {
+                cx.class("glyph:more-points-than-data-bytes");
+            }
+            glyphs[0] = Glyph::Simple(g);
+        }
         let cyclic = rng.chance(1, 25);
         let wide = rng.chance(1, 6);
         for k in 0..ncomp {
@@ -251,7 +280,13 @@ impl Prop for C16 {
             glyphs.push(Glyph::Composite(Composite { components, instructions: rng.bytes(ilen) }));
         }
         // serialise
-        let enc = if long_run { EncChoice { repeat: 8, long: 8, explicit_zero: 8 } } else { EncChoice::random(rng) };
+        let enc = if long_run {
+            EncChoice { repeat: 8, long: 8, explicit_zero: 8 }
+        } else if coincident {
+            EncChoice::compact()
+        } else {
+            EncChoice::random(rng)
+        };
         let mut records = Vec::new();
         for g in &glyphs {
             records.push(match g {
